@@ -22,16 +22,17 @@ const (
 
 // scen is one generated script (k = 0 layout) with its expected trace.
 type scen struct {
-	Main     string
-	Mod      string
-	HasMod   bool
-	Callback bool
-	Exp      []expFrame
-	Depth    int
-	Forms    []string // call forms, outermost first (with wrapper suffixes)
-	Fail     string
-	CrossMod int // number of file boundary crossings along the chain
-	Tries    int // completed try statements among the filler
+	Main        string
+	Mod         string
+	HasMod      bool
+	Callback    bool
+	Exp         []expFrame
+	Depth       int
+	Forms       []string // call forms, outermost first (with wrapper suffixes)
+	Fail        string
+	CrossMod    int  // number of file boundary crossings along the chain
+	Tries       int  // completed try statements among the filler
+	ImportChain bool // the module body is part of the chain (fails while being imported)
 }
 
 type fileB struct {
@@ -64,6 +65,7 @@ type gen struct {
 	allowCB  bool // CALL(f, a) call forms (Go callback + Invoker)
 	allowTry bool // filler: try statements that complete (a caught error, a finally that ran)
 	tries    int
+	noA      bool // the variable `a` is not declared (first statement of a module)
 }
 
 func (g *gen) id(p string) string {
@@ -76,6 +78,11 @@ func (g *gen) pick(label string, n int) int {
 		return 0
 	}
 	return rapid.IntRange(0, n-1).Draw(g.rt, label)
+}
+
+// fold returns a constant expression the optimizer replaces by a literal.
+func (g *gen) fold() string {
+	return []string{"(1+2)", `("x" + "y")`, "(2 > 1)", "(1.5 + 1.5)", `len("abc")`, "(!false)", "(2 * 3 - 1)", `string(12)`, "('a' + 1)"}[g.pick("fold", 9)]
 }
 
 // filler emits 0..max non-failing lines that never call a chain function.
@@ -160,7 +167,7 @@ func (g *gen) filler(b *fileB, ind, max int) {
 func (g *gen) wrap(b *fileB, ind, budget int, tag *string, inner func(ind int) []expFrame) []expFrame {
 	k := 0
 	if budget > 0 {
-		k = g.pick("wrap", 7)
+		k = g.pick("wrap", 11)
 	}
 	rec := func(ind int) []expFrame { return g.wrap(b, ind, budget-1, tag, inner) }
 	switch k {
@@ -228,11 +235,11 @@ func (g *gen) emitCall(b *fileB, ind int, callee string, inMain bool, form *stri
 	case "assign":
 		return one(b.add(ind, g.id("y")+" := "+c))
 	case "ret-plus":
-		return one(b.add(ind, "return "+c+" + (1+2)"))
+		return one(b.add(ind, "return "+c+" + "+g.fold()))
 	case "ret-bare":
 		return one(b.add(ind, "return "+c))
 	case "cond":
-		return one(b.add(ind, "if "+c+" == (1+2) { }"))
+		return one(b.add(ind, "if "+c+" == "+g.fold()+" { }"))
 	case "cond-block":
 		l := b.add(ind, "if "+c+" == 0 {")
 		b.add(ind+1, g.id("w")+" := 1")
@@ -247,11 +254,11 @@ func (g *gen) emitCall(b *fileB, ind int, callee string, inMain bool, form *stri
 	case "spread":
 		return one(b.add(ind, callee+"(...[a])"))
 	case "array-elt":
-		return one(b.add(ind, g.id("y")+" := [(1+2), "+c+", (2*3)]"))
+		return one(b.add(ind, g.id("y")+" := ["+g.fold()+", "+c+", "+g.fold()+"]"))
 	case "map-elt":
 		return one(b.add(ind, g.id("y")+" := {k: "+c+"}"))
 	case "ternary":
-		return one(b.add(ind, g.id("y")+" := a == a ? "+c+" : (1+2)"))
+		return one(b.add(ind, g.id("y")+" := a == a ? "+c+" : "+g.fold()))
 	case "compound":
 		acc := g.id("acc")
 		b.add(ind, acc+" := 0")
@@ -261,7 +268,7 @@ func (g *gen) emitCall(b *fileB, ind int, callee string, inMain bool, form *stri
 		b.add(ind, t+" := {f: "+callee+"}")
 		return one(b.add(ind, t+".f(a)"))
 	case "logical":
-		return one(b.add(ind, g.id("y")+" := a == a && "+c))
+		return one(b.add(ind, g.id("y")+" := "+g.fold()+" != undefined && "+c+" == "+g.fold()))
 	case "unary":
 		return one(b.add(ind, g.id("y")+" := !"+c))
 	case "index-of-result":
@@ -285,7 +292,7 @@ func (g *gen) emitCall(b *fileB, ind int, callee string, inMain bool, form *stri
 		l := b.add(ind, "CALL("+callee+", a)")
 		return []expFrame{{File: b.name, Lo: l, Hi: l, CB: true}}
 	case "callback-assign":
-		l := b.add(ind, g.id("y")+" := CALL("+callee+", a) + (1+2)")
+		l := b.add(ind, g.id("y")+" := CALL("+callee+", a) + "+g.fold())
 		return []expFrame{{File: b.name, Lo: l, Hi: l, CB: true}}
 	}
 	panic("unreachable")
@@ -297,6 +304,12 @@ var failKinds = []string{"throw-string", "throw-error", "throw-typed", "throw-va
 
 func (g *gen) emitFail(b *fileB, ind int, kind *string) []expFrame {
 	k := g.pick("failkind", len(failKinds))
+	if g.noA {
+		switch failKinds[k] {
+		case "argc-many", "not-callable", "not-indexable", "not-iterable":
+			k = 0
+		}
+	}
 	*kind = failKinds[k]
 	one := func(l int) []expFrame { return []expFrame{{File: b.name, Lo: l, Hi: l}} }
 	switch failKinds[k] {
@@ -365,9 +378,19 @@ func generate(rt *rapid.T, allowCB, allowTry bool) *scen {
 	defer func() { sc.Tries = g.tries }()
 	depth := rapid.IntRange(0, 13).Draw(rt, "depth")
 	sc.Depth = depth
-	useMod := depth > 0 && g.pick("use-module", 2) == 1
+	useMod := g.pick("use-module", 2) == 1
+	// import-chain: the module's top-level code is part of the chain: slot importAt
+	// executes `x := import("m")` and the module body calls f<importAt> (or fails).
+	importAt := -1
+	if useMod && (depth == 0 || g.pick("import-chain", 4) == 0) {
+		importAt = g.pick("import-at", depth+1)
+	}
 	inMod := make([]bool, depth)
-	if useMod {
+	if importAt >= 0 {
+		for i := range inMod {
+			inMod[i] = i >= importAt
+		}
+	} else if useMod {
 		any := false
 		for i := range inMod {
 			inMod[i] = g.pick("in-module", 3) == 0
@@ -378,15 +401,10 @@ func generate(rt *rapid.T, allowCB, allowTry bool) *scen {
 		}
 	}
 	sc.HasMod = useMod
+	sc.ImportChain = importAt >= 0
 	mainB := &fileB{name: mainName}
 	modB := &fileB{name: modName}
 	name := func(i int) string { return fmt.Sprintf("f%d", i) }
-	fileOf := func(i int) *fileB {
-		if inMod[i] {
-			return modB
-		}
-		return mainB
-	}
 	// expression naming function i as seen from a caller in the main file (callerMain) or the module
 	calleeExpr := func(i int, callerMain bool) string {
 		switch {
@@ -398,6 +416,38 @@ func generate(rt *rapid.T, allowCB, allowTry bool) *scen {
 		return name(i)
 	}
 
+	// slot 0 = main, slot s = function s-1; slot s calls function s, slot depth fails
+	exp := make([][]expFrame, depth+1)
+	forms := make([]string, depth+1)
+	var expTop []expFrame // module top level (import-chain)
+	var formTop string
+	next := func(b *fileB, ind, s int, form *string) []expFrame {
+		callerMain := b == mainB
+		if s == depth {
+			return g.emitFail(b, ind, &sc.Fail)
+		}
+		if !callerMain != inMod[s] {
+			sc.CrossMod++
+		}
+		return g.emitCall(b, ind, calleeExpr(s, callerMain), callerMain, form)
+	}
+	action := func(b *fileB, ind, s int) {
+		var tag, form string
+		exp[s] = g.wrap(b, ind, 2, &tag, func(ind int) []expFrame {
+			if s == importAt {
+				form = "import"
+				sc.CrossMod++
+				l := b.add(ind, g.id("m")+` := import("m")`)
+				return []expFrame{{File: b.name, Lo: l, Hi: l}}
+			}
+			return next(b, ind, s, &form)
+		})
+		if form == "" {
+			form = sc.Fail
+		}
+		forms[s] = form + tag
+	}
+
 	// preambles
 	mainB.add(0, "a := 1")
 	if allowCB {
@@ -405,18 +455,24 @@ func generate(rt *rapid.T, allowCB, allowTry bool) *scen {
 		mainB.add(0, "global CALL")
 	}
 	g.filler(mainB, 0, 2)
-	if useMod {
+	bareTop := importAt == depth && g.pick("bare-module-top", 2) == 1
+	if useMod && importAt < 0 {
 		mainB.add(0, `m := import("m")`)
+	}
+	if useMod && !bareTop {
 		modB.add(0, "a := 1")
 		g.filler(modB, 0, 3)
-		modB.add(0, "reg := {}")
+		if importAt < 0 {
+			modB.add(0, "reg := {}")
+		}
 	}
 
-	exp := make([][]expFrame, depth+1) // exp[0] = main's entry, exp[i+1] = entries of function i
-	forms := make([]string, depth+1)
 	// functions innermost first
 	for i := depth - 1; i >= 0; i-- {
-		b := fileOf(i)
+		b := mainB
+		if inMod[i] {
+			b = modB
+		}
 		g.filler(b, 0, 2)
 		switch g.pick("decl", 3) {
 		case 0:
@@ -427,27 +483,39 @@ func generate(rt *rapid.T, allowCB, allowTry bool) *scen {
 			b.add(0, "var "+name(i)+" = func(a) {")
 		}
 		g.filler(b, 1, 3)
-		var tag string
-		if i == depth-1 {
-			exp[i+1] = g.wrap(b, 1, 2, &tag, func(ind int) []expFrame { return g.emitFail(b, ind, &sc.Fail) })
-			forms[i+1] = sc.Fail + tag
-		} else {
-			var form string
-			exp[i+1] = g.wrap(b, 1, 2, &tag, func(ind int) []expFrame {
-				return g.emitCall(b, ind, calleeExpr(i+1, !inMod[i]), !inMod[i], &form)
-			})
-			forms[i+1] = form + tag
-			if inMod[i] != inMod[i+1] {
-				sc.CrossMod++
-			}
-		}
+		action(b, 1, i+1)
 		g.filler(b, 1, 2)
 		if g.pick("tail-return", 2) == 1 {
 			b.add(1, "return a + (1+2)")
 		}
 		b.add(0, "}")
 	}
-	if useMod {
+	switch {
+	case importAt >= 0:
+		// the module body continues the chain
+		if !bareTop {
+			g.filler(modB, 0, 2)
+		}
+		var tag, form string
+		g.noA = bareTop
+		budget := 2
+		if bareTop {
+			budget = 0 // the failing statement is the first byte of the module file
+		}
+		expTop = g.wrap(modB, 0, budget, &tag, func(ind int) []expFrame { return next(modB, ind, importAt, &form) })
+		g.noA = false
+		if form == "" {
+			form = sc.Fail
+		}
+		formTop = form + tag
+		if bareTop {
+			modB.add(0, "a := 1")
+		}
+		g.filler(modB, 0, 2)
+		if g.pick("module-return", 2) == 1 {
+			modB.add(0, "return {}")
+		}
+	case useMod:
 		g.filler(modB, 0, 2)
 		exports := []string{"set: func(k, v) { reg[k] = v }"}
 		for i := 0; i < depth; i++ {
@@ -464,28 +532,19 @@ func generate(rt *rapid.T, allowCB, allowTry bool) *scen {
 		}
 	}
 	g.filler(mainB, 0, 3)
-	var tag string
-	if depth == 0 {
-		exp[0] = g.wrap(mainB, 0, 2, &tag, func(ind int) []expFrame { return g.emitFail(mainB, ind, &sc.Fail) })
-		forms[0] = sc.Fail + tag
-	} else {
-		var form string
-		exp[0] = g.wrap(mainB, 0, 2, &tag, func(ind int) []expFrame {
-			return g.emitCall(mainB, ind, calleeExpr(0, true), true, &form)
-		})
-		forms[0] = form + tag
-		if inMod[0] {
-			sc.CrossMod++
-		}
-	}
+	action(mainB, 0, 0)
 	// the failing/calling statement of main is sometimes the very last line of the file
 	if g.pick("main-tail", 3) != 0 {
 		g.filler(mainB, 0, 2)
 	}
-	for _, e := range exp {
-		sc.Exp = append(sc.Exp, e...)
+	for s := range exp {
+		sc.Exp = append(sc.Exp, exp[s]...)
+		sc.Forms = append(sc.Forms, forms[s])
+		if s == importAt {
+			sc.Exp = append(sc.Exp, expTop...)
+			sc.Forms = append(sc.Forms, formTop)
+		}
 	}
-	sc.Forms = forms
 	sc.Main = mainB.text(g.pick("main-trailing-newline", 2) == 0)
 	if useMod {
 		sc.Mod = modB.text(g.pick("mod-trailing-newline", 2) == 0)
